@@ -235,6 +235,16 @@ class ServiceRunner(RunnerBase):
     p.double_value_spec.max_value = XMAX
     spec.metrics.add(metric_id='obj', goal=svc.study_pb2.StudySpec.MetricSpec.GoalType.MAXIMIZE)
     self.sn = svc.create_study(self.sv, spec=spec).name
+    # neighbours: studies of the same owner whose names extend the study's name ('s' -> 's1', 's_'), holding
+    # completed and waiting trials with ids the study also uses - none of them may ever reach this study's algorithm
+    for dname in ('s1', 's_', 'S'):
+      dn = svc.create_study(self.sv, display=dname, spec=spec).name
+      for st, tok in ((svc.study_pb2.Trial.State.SUCCEEDED, 900), (svc.study_pb2.Trial.State.REQUESTED, 901), (svc.study_pb2.Trial.State.SUCCEEDED, 902)):
+        t = svc.study_pb2.Trial(state=st)
+        t.parameters.add(parameter_id='x').value.number_value = float(tok)
+        if st == svc.study_pb2.Trial.State.SUCCEEDED:
+          t.final_measurement.metrics.add(metric_id='obj', value=1.0)
+        self.sv.CreateTrial(svc.vsp.CreateTrialRequest(parent=dn, trial=t))
 
   def _factory(self, problem_statement, algorithm, policy_supporter, study_name):
     return make_policy(self.kind, problem_statement, policy_supporter, self.designers, self.ns_root)
